@@ -64,7 +64,7 @@ let show_out (o : out) : string = match o with
 
 let show_shape = function
   | None -> "none"
-  | Some ShBatchRange -> "batch-range" | Some ShNonIndexedRead -> "non-indexed-read"
+  | Some ShNonIndexedRead -> "non-indexed-read"
   | Some ShBadHandle -> "bad-handle"
 
 let () =
